@@ -1182,7 +1182,11 @@ class Container:
                 list(convert_one(substance, total_quantity_unit) for substance in solute + [solvent]))
             b[index] = total_quantity
 
-        xs = numpy.linalg.solve(a[:n + 1], b[:n + 1])
+        try:
+            xs = numpy.linalg.solve(a[:n + 1], b[:n + 1])
+        except numpy.linalg.LinAlgError:
+            # the stated values do not determine a mixture (e.g. '0 M' together with '0 g')
+            raise ValueError("Solution is impossible to create.")
         if any(x <= 0 for x in xs):
             raise ValueError("Solution is impossible to create.")
 
@@ -1339,7 +1343,10 @@ class Container:
             a[1] = numpy.array([d_x / mw_x, d_y / mw_y])
 
         b[1] = quantity_value
-        x, y = numpy.linalg.solve(a, b)
+        try:
+            x, y = numpy.linalg.solve(a, b)
+        except numpy.linalg.LinAlgError:
+            raise ValueError("Solution is impossible to create.")
         if x < 0 or y < 0:
             raise ValueError("Solution is impossible to create.")
 
